@@ -8,12 +8,14 @@ import (
 	"golang.org/x/tools/go/ssa"
 )
 
+var theLoaded *Loaded
+
 func newExec(prog *ssa.Program, specs *Specs, fn *ssa.Function, con *Contract, tp map[string]types.Type) *Exec {
 	key := "lemma"
 	if fn != nil {
 		key = fnKey(fn)
 	}
-	return &Exec{prog: prog, specs: specs, fn: fn, key: key, con: con, tparam: tp,
+	return &Exec{ld: theLoaded, prog: prog, specs: specs, fn: fn, key: key, con: con, tparam: tp,
 		obls: map[string]*Obligation{}, typeIDs: map[string]uint64{}, loops: map[*ssa.Function]*loopInfo{},
 		ordinal: map[ssa.Instruction]int{}, globals: map[*ssa.Global]uint64{}}
 }
@@ -46,7 +48,7 @@ func (x *Exec) entryState() (*State, []V) {
 		v := args[i]
 		if v.K == KTuple && len(v.Fs) >= 2 && v.Fs[0].K == KPtr && v.Fs[0].Prov != nil && strings.HasPrefix(v.Fs[0].Prov.Space, "B:") {
 			arr := st.mem[v.Fs[0].Prov.Space].term
-			for k := 0; k < 24; k++ {
+			for k := 0; k < replayByteCap; k++ {
 				st.inputs = append(st.inputs, inputSym{Name: app("select", arr, bvadd(v.Fs[0].T, bvLit(uint64(k), 64))), Desc: fmt.Sprintf("%s[%d]", fn.Params[i].Name(), k)})
 			}
 		}
